@@ -80,8 +80,114 @@ fn rv_canon(v: &ReplicatedValue) -> String {
     };
     format!("(V {} {} {} {} {} {})", vharness::rv::crdt_term_of(v, false), vc, copt(&v.expiry_ms, |e| e.to_string()), v.timestamp.time, v.timestamp.replica_id.0, copt(&v.replication_factor, |e| e.to_string()))
 }
+/// State that a (de)serializer may silently drop is not visible in any printed form that is
+/// itself produced by the serializer.  So: one more round of local operations on a copy of the
+/// value (every replica adds / increments / writes once more, existing elements are removed,
+/// the clocks tick, the value is merged with itself) and the results are printed.  Equal values
+/// must behave equally.
+fn followup(v: &ReplicatedValue) -> String {
+    let mut w = v.clone();
+    let mut log = String::new();
+    let reps = [ReplicaId(1), ReplicaId(2), ReplicaId(3), ReplicaId(4), v.timestamp.replica_id];
+    match &mut w.crdt {
+        CrdtValue::Lww(l) => {
+            let mut c = LamportClock { time: l.timestamp.time.min(u64::MAX - 8), replica_id: l.timestamp.replica_id };
+            l.set(SDS::new(b"probe".to_vec()), &mut c);
+            log += &format!("clock{}", c.time);
+        }
+        CrdtValue::GCounter(g) => {
+            for r in reps { g.increment_by(r, 1); }
+            log += &format!("value{}", g.value());
+        }
+        CrdtValue::PNCounter(p) => {
+            for r in reps { p.increment_by(r, 2); p.decrement_by(r, 1); }
+            log += &format!("value{}", p.value());
+        }
+        CrdtValue::GSet(g) => { log += &format!("new{}", g.add("probe".to_string())); }
+        CrdtValue::ORSet(o) => {
+            let mut existing: Vec<String> = o.elements().cloned().collect();
+            existing.sort();
+            for r in reps {
+                let t = o.add(format!("probe{}", r.0), r);
+                log += &format!("tag({},{})", t.replica_id.0, t.sequence);
+            }
+            for e in existing {
+                let t = o.add(e.clone(), reps[0]);
+                log += &format!("re-add({},{})", t.replica_id.0, t.sequence);
+                let mut removed: Vec<(u64, u64)> = o.remove(&e).iter().map(|t| (t.replica_id.0, t.sequence)).collect();
+                removed.sort();
+                log += &format!("removed{:?}", removed);
+            }
+        }
+        CrdtValue::Hash(h) => {
+            let mut fields: Vec<String> = h.keys().cloned().collect();
+            fields.sort();
+            let mut c = LamportClock { time: v.timestamp.time.min(u64::MAX - 64), replica_id: v.timestamp.replica_id };
+            for f in fields {
+                if let Some(l) = h.get_mut(&f) {
+                    if l.tombstone { l.set(SDS::new(b"back".to_vec()), &mut c); } else { l.delete(&mut c); }
+                }
+            }
+            log += &format!("clock{}", c.time);
+        }
+    }
+    if let Some(vc) = w.vector_clock.as_mut() {
+        for r in reps { vc.increment(r); }
+    }
+    let merged = v.merge(v);
+    format!("{}|{}|self-merge:{}", log, rv_canon(&w), rv_canon(&merged))
+}
+/// the decoded update equals the original: every field (key, value, source) and its behaviour
 fn delta_canon(d: &ReplicationDelta) -> String {
-    format!("{}|{}|{}", hex(d.key.as_bytes()), rv_canon(&d.value), d.source_replica.0)
+    format!("{}|{}|{}|then:{}", hex(d.key.as_bytes()), rv_canon(&d.value), d.source_replica.0, followup(&d.value))
+}
+fn rv_full(v: &ReplicatedValue) -> String {
+    format!("{}|then:{}", rv_canon(v), followup(v))
+}
+
+/// Values whose history leaves gaps that a "rebuild it from what is left" decoder gets wrong:
+/// the newest tags of an OR-set removed, counters with cancelling or zero operations, hash fields
+/// all tombstoned, vector clocks with zero entries.
+fn gap_value(rng: &mut Rng) -> ReplicatedValue {
+    let rid = ReplicaId(rng.gen_range(1..4));
+    let other = ReplicaId(rid.0 % 3 + 1);
+    let mut v = ReplicatedValue::new(rid);
+    v.timestamp = LamportClock { time: rng.gen_range(1..50), replica_id: rid };
+    match rng.gen_range(0..5) {
+        0 | 1 => {
+            let mut o: ORSet<String> = ORSet::new();
+            let n = rng.gen_range(2..5);
+            for j in 0..n { o.add(format!("e{}", j), rid); if rng.gen_bool(0.4) { o.add(format!("o{}", j), other); } }
+            // remove the newest element(s) of rid, sometimes everything
+            let k = if rng.gen_bool(0.25) { n } else { rng.gen_range(1..n) };
+            for j in (n - k..n).rev() { o.remove(&format!("e{}", j)); }
+            if rng.gen_bool(0.3) { for j in 0..n { o.remove(&format!("o{}", j)); } }
+            v.crdt = CrdtValue::ORSet(o);
+        }
+        2 => {
+            let mut p = PNCounter::new();
+            let a = rng.gen_range(0..4);
+            p.increment_by(rid, a); p.decrement_by(rid, a);
+            p.increment_by(other, 0);
+            if rng.gen_bool(0.5) { v.crdt = CrdtValue::PNCounter(p); }
+            else { let mut g = GCounter::new(); g.increment_by(rid, 0); g.increment_by(other, rng.gen_range(0..2)); v.crdt = CrdtValue::GCounter(g); }
+        }
+        3 => {
+            let mut c = LamportClock { time: 3, replica_id: rid };
+            v.hash_set("f1".to_string(), SDS::new(b"x".to_vec()), &mut c);
+            v.hash_set("f2".to_string(), SDS::new(vec![]), &mut c);
+            v.hash_delete("f1", &mut c);
+            if rng.gen_bool(0.5) { v.hash_delete("f2", &mut c); }
+        }
+        _ => {
+            // vector clock with zero entries (not reachable through increment; a legal value of the type)
+            let vc: VectorClock = serde_json::from_value(json!({"clocks": {"1": 0, "2": rng.gen_range(0..3), "7": 0}})).unwrap();
+            v.vector_clock = Some(vc);
+            let mut c = v.timestamp;
+            if rng.gen_bool(0.5) { v.delete(&mut c); }
+        }
+    }
+    v
 }
 
 // ---------- values of every CRDT kind (generator of c07.rs, plus large / binary strings) ----------
@@ -350,6 +456,11 @@ fn mutations(rng: &mut Rng, len: usize, regions: &[(usize, usize)], n_flips: usi
     v
 }
 
+/// Coq string term for a long byte string: (cat ["..."; "..."; ...]) in pieces of 1000 bytes
+fn chex_long(b: &[u8]) -> String {
+    if b.len() <= 2000 { return chex(b); }
+    format!("(cat {})", clist(b.chunks(1000), |c| chex(c)))
+}
 fn crc32(d: &[u8]) -> u32 {
     let mut c: u32 = 0xFFFF_FFFF;
     for &b in d {
@@ -434,6 +545,8 @@ fn main() {
     let n_patch = args.get("patch", 8) as usize;
     let adversarial_every = args.get("adversarial", 8);
     let huge = args.get("huge", 0) == 1;
+    let large_every = args.get("large", 24);
+    let model_large = args.get("modellarge", 1) == 1;
     out.nontrivial_rule = "a case = a batch of deltas (values of every CRDT kind produced by three replicas exchanging updates; binary, empty and 300-byte strings; unusual keys) encoded by the real WalEntry / SegmentWriter / CheckpointWriter / GossipMessage; probes = every truncation length of every image, every bit of the fixed header/footer regions, sampled flips and patches elsewhere; every 8th case additionally holds a batch whose payload imitates a segment footer; non-trivial = batch of >= 2 deltas; distinct by canonical text of the batch".into();
     let range: Vec<u64> = match args.only { Some(i) => vec![i], None => (0..args.n).collect() };
     for i in range {
@@ -448,6 +561,8 @@ fn main() {
             let key = format!("{}{}", j, KEY_SUFFIX[rng.gen_range(0..KEY_SUFFIX.len())]);
             deltas.push(ReplicationDelta::new(key, v, ReplicaId(rng.gen_range(1..4))));
         }
+        // one value per case whose history leaves gaps (first, so that every encoding sees it)
+        deltas.insert(0, ReplicationDelta::new("gap".to_string(), gap_value(&mut rng), ReplicaId(rng.gen_range(1..4))));
         let adversarial = adversarial_every > 0 && i % adversarial_every == adversarial_every - 1;
         let adv_start = deltas.len();
         if adversarial {
@@ -572,7 +687,7 @@ fn main() {
         {
             let mut state: HashMap<String, ReplicatedValue> = HashMap::new();
             for d in deltas.iter().take(rng.gen_range(0..=adv_start)) { state.insert(d.key.clone(), d.value.clone()); }
-            let state_canon: BTreeMap<String, String> = state.iter().map(|(k, v)| (k.clone(), rv_canon(v))).collect();
+            let state_canon: BTreeMap<String, String> = state.iter().map(|(k, v)| (k.clone(), rv_full(v))).collect();
             let (ts_ms, last) = (rng.gen_range(0..u64::MAX), [0u64, 1, 7, u64::MAX][rng.gen_range(0..4)]);
             let keys = state.len() as u64;
             let img = CheckpointWriter::new(Compression::None).write(state, ts_ms, last).unwrap();
@@ -597,7 +712,7 @@ fn main() {
                     let rd = CheckpointReader::open(&bad)?;
                     rd.validate()?;
                     let d = rd.load()?;
-                    Ok((rd.key_count(), rd.timestamp_ms(), rd.last_segment_id(), d.state.iter().map(|(k, v)| (k.clone(), rv_canon(v))).collect()))
+                    Ok((rd.key_count(), rd.timestamp_ms(), rd.last_segment_id(), d.state.iter().map(|(k, v)| (k.clone(), rv_full(v))).collect()))
                 }));
                 let term = match &r {
                     Err(_) => { viol(&mut out, &mut seen, i, "checkpoint reader (open, validate, load) panicked", json!({"mutation": m.term()})); "CPanic".to_string() }
@@ -776,6 +891,183 @@ fn main() {
                                             "value_sizes_appended": sizes, "value_sizes_of_lost_updates": lost}));
                             }
                         }
+                    }
+                }
+            }
+        }
+
+        // ---- 6. large images: payload lengths k*65536 + delta in every encoding, damage concentrated
+        //         in the last 64 KiB, right before the footer and around 64 KiB / 4 KiB boundaries
+        if large_every > 0 && i % large_every == 5 % large_every {
+            let pat = (i / large_every) % 4;
+            let (k, many) = match pat { 0 => (1usize, false), 1 => (2, false), 2 => (3, true), _ => (16, false) };
+            let delta_len: i64 = match rng.gen_range(0..5) { 0 => 0, 1 => 1, 2 => -1, 3 => rng.gen_range(2..400), _ => -rng.gen_range(2..400) };
+            let target = (k as i64 * 65536 + delta_len) as usize;
+            let m = if many { 24 } else { 1 };
+            out.count(&format!("large:{}x64KiB{}{}", k, if delta_len == 0 { "" } else if delta_len > 0 { "+" } else { "-" }, if many { ":many-values" } else { ":one-value" }));
+            let mk = |sizes: &[usize]| -> Vec<ReplicationDelta> {
+                sizes.iter().enumerate().map(|(j, &sz)| {
+                    let val: Vec<u8> = (0..sz).map(|x| ((x as u32).wrapping_mul(2654435761) >> 13) as u8 ^ j as u8).collect();
+                    lww_delta(format!("L{}", j), val, 5 + j as u64)
+                }).collect()
+            };
+            // value sizes such that `measure` (the length of the checksummed region) is exactly `target`
+            let fit = |measure: &dyn Fn(&[ReplicationDelta]) -> usize| -> Vec<ReplicationDelta> {
+                let d0 = measure(&mk(&vec![0; m]));
+                let total = target.saturating_sub(d0);
+                let mut sizes = vec![total / m; m];
+                sizes[m - 1] += total - (total / m) * m;
+                mk(&sizes)
+            };
+            let fp = |d: &ReplicationDelta| -> (String, Option<Vec<u8>>, u64, u64, bool, u64) {
+                (d.key.clone(), d.value.get().map(|v| v.as_bytes().to_vec()), d.value.timestamp.time, d.value.timestamp.replica_id.0, d.value.is_tombstone(), d.source_replica.0)
+            };
+            // probes for an image whose checksummed data region is [ds, de)
+            let probes_for = |rng: &mut Rng, len: usize, ds: usize, de: usize| -> Vec<Mut> {
+                let mut pos: Vec<usize> = vec![];
+                for back in [1usize, 2, 3, 8, 64, 300] { if de >= ds + back { pos.push(de - back); } }
+                let lo = ds.max(de.saturating_sub(65536));
+                for _ in 0..24 { pos.push(rng.gen_range(lo..de)); }
+                let mut b = 65536;
+                while b < len + 65536 {
+                    for base in [0usize, ds] { for d in [-1i64, 0, 1] { let p = (base + b) as i64 + d; if p >= 0 && (p as usize) < len { pos.push(p as usize); } } }
+                    b += 65536;
+                }
+                let mut b4 = (lo / 4096) * 4096;
+                while b4 < de { for d in [-1i64, 0, 1] { let p = b4 as i64 + d; if p >= ds as i64 && (p as usize) < de { pos.push(p as usize); } } b4 += 4096; }
+                for _ in 0..8 { let bb = ds + rng.gen_range(0..((de - ds) / 4096).max(1)) * 4096; for d in [-1i64, 0, 1] { let p = bb as i64 + d; if p >= ds as i64 && (p as usize) < de { pos.push(p as usize); } } }
+                for _ in 0..8 { pos.push(rng.gen_range(0..len)); }
+                pos.sort(); pos.dedup();
+                let mut v: Vec<Mut> = vec![Mut::None];
+                for p in pos { v.push(Mut::Flip(p, rng.gen_range(0..8))); }
+                for t in [de.saturating_sub(1), de, (de + 1).min(len - 1), len - 1, ds + (de - ds) / 2, ds + 65536.min(de - ds) - 1] { if t < len { v.push(Mut::Trunc(t)); } }
+                // two sites: a tail flip together with a zero-filled / 0xFF-filled range elsewhere in the data
+                for fillv in [0u8, 0xFF] {
+                    v.push(Mut::Seq("fill+flips", vec![Mut::Fill(rng.gen_range(ds..de), 16, fillv), Mut::Flip(de - 1 - rng.gen_range(0..(de - ds).min(60000)), rng.gen_range(0..8))]));
+                }
+                v
+            };
+            // -- checkpoint
+            {
+                let ds_ = fit(&|ds: &[ReplicationDelta]| {
+                    let st: HashMap<String, ReplicatedValue> = ds.iter().map(|d| (d.key.clone(), d.value.clone())).collect();
+                    CheckpointWriter::new(Compression::None).write(st, 1, 1).unwrap().len() - 68
+                });
+                let want: BTreeMap<String, _> = ds_.iter().map(|d| (d.key.clone(), fp(d))).collect();
+                let st: HashMap<String, ReplicatedValue> = ds_.iter().map(|d| (d.key.clone(), d.value.clone())).collect();
+                let (ts_ms, last, keys) = (77u64, 3u64, st.len() as u64);
+                let img = CheckpointWriter::new(Compression::None).write(st, ts_ms, last).unwrap();
+                let (dstart, dend) = (52usize, img.len() - 16);
+                if dend - dstart != target { viol(&mut out, &mut seen, i, "harness: large checkpoint payload has not the intended length", json!({"want": target, "got": dend - dstart})); }
+                let mut model_probes = Vec::new();
+                for m_ in probes_for(&mut rng, img.len(), dstart, dend) {
+                    let bad = m_.apply(&img);
+                    out.impl_checks += 1;
+                    out.count(&format!("large-checkpoint:{}", m_.label()));
+                    let r = catch_unwind(AssertUnwindSafe(|| -> Result<(u64, u64, u64, BTreeMap<String, _>), CheckpointError> {
+                        let rd = CheckpointReader::open(&bad)?;
+                        rd.validate()?;
+                        let d = rd.load()?;
+                        Ok((rd.key_count(), rd.timestamp_ms(), rd.last_segment_id(), d.state.iter().map(|(k, v)| (k.clone(), fp(&ReplicationDelta::new(k.clone(), v.clone(), ReplicaId(1))))).collect()))
+                    }));
+                    let term = match &r {
+                        Err(_) => { viol(&mut out, &mut seen, i, "the implementation panicked on CheckpointReader open/validate/load of a large image", json!({"mutation": m_.term(), "image_len": img.len()})); "CPanic".to_string() }
+                        Ok(Err(e)) => {
+                            if matches!(m_, Mut::None) { viol(&mut out, &mut seen, i, "large checkpoint does not round-trip", json!({"err": e.to_string(), "data_len": target})); }
+                            format!("CErr {}", chk_kind(e))
+                        }
+                        Ok(Ok((kc, t, l, stt))) => {
+                            let same = *stt == want && *kc == keys && *t == ts_ms && *l == last;
+                            if !same || matches!(m_, Mut::Trunc(_)) {
+                                viol(&mut out, &mut seen, i, if matches!(m_, Mut::None) { "large checkpoint does not round-trip" } else { "damaged large checkpoint decoded into different data (or a truncated one accepted)" },
+                                     json!({"mutation": m_.term(), "image_len": img.len(), "data_region": [dstart, dend], "data_len": target,
+                                            "rebuild": "CheckpointWriter::write of LWW values L0.. with value byte x = ((x*2654435761)>>13) ^ j, see c14.rs section 6"}));
+                            }
+                            if *stt == want { format!("COk {} {} {}", kc, t, l) } else { "CDiff".to_string() }
+                        }
+                    };
+                    if model_probes.len() < 6 && !matches!(m_, Mut::Seq(..)) {
+                        let u = match CheckpointReader::open(&bad) { Err(_) => "UOpenErr", Ok(_) => "UReturned" };
+                        model_probes.push(format!("({}, {}, {})", m_.term(), term, u));
+                    }
+                }
+                // the ~64 KiB image is also judged by the model (writer bytes incl. the checksum, and the probes)
+                if k == 1 && !many && model_large {
+                    chk_t.push(format!("CK {} {} {} {} {} {}", keys, ts_ms, last, chex_long(&img[52..img.len() - 16]), chex_long(&img), clist(model_probes.iter(), |p| p.clone())));
+                    out.count("large-checkpoint:model-compared");
+                }
+            }
+            // -- segment
+            {
+                let ds_ = fit(&|ds: &[ReplicationDelta]| {
+                    let mut w = SegmentWriter::new(Compression::None);
+                    for d in ds { w.write_delta(d).unwrap(); }
+                    w.finish().unwrap().len() - 64
+                });
+                let want: Vec<_> = ds_.iter().map(fp).collect();
+                let mut w = SegmentWriter::new(Compression::None);
+                for d in &ds_ { w.write_delta(d).unwrap(); }
+                let img = w.finish().unwrap();
+                let (dstart, dend) = (40usize, img.len() - 24);
+                for m_ in probes_for(&mut rng, img.len(), dstart, dend) {
+                    let bad = m_.apply(&img);
+                    out.impl_checks += 1;
+                    out.count(&format!("large-segment:{}", m_.label()));
+                    let r = catch_unwind(AssertUnwindSafe(|| -> Result<Vec<ReplicationDelta>, SegmentError> { let rd = SegmentReader::open(&bad)?; rd.validate()?; rd.read_all() }));
+                    match &r {
+                        Err(_) => viol(&mut out, &mut seen, i, "the implementation panicked on SegmentReader open/validate/read_all of a large image", json!({"mutation": m_.term(), "image_len": img.len()})),
+                        Ok(Err(e)) => { if matches!(m_, Mut::None) { viol(&mut out, &mut seen, i, "large segment does not round-trip", json!({"err": e.to_string()})); } }
+                        Ok(Ok(back)) => {
+                            let got: Vec<_> = back.iter().map(fp).collect();
+                            if got != want || matches!(m_, Mut::Trunc(_)) {
+                                viol(&mut out, &mut seen, i, if matches!(m_, Mut::None) { "large segment does not round-trip" } else { "damaged large segment decoded into different data (or a truncated one accepted)" },
+                                     json!({"mutation": m_.term(), "image_len": img.len(), "record_region": [dstart, dend]}));
+                            }
+                        }
+                    }
+                }
+            }
+            // -- WAL entry (one large payload) and gossip message
+            {
+                let ds_ = fit(&|ds: &[ReplicationDelta]| payload_of(&ds[0]).len() * ds.len());
+                let d0 = &ds_[0];
+                let e = WalEntry::from_delta(d0, 42).unwrap();
+                let img = e.encode();
+                for m_ in probes_for(&mut rng, img.len(), 16, img.len()) {
+                    // flips in the length / stamp fields belong to the known header finding: not repeated here
+                    if let Mut::Flip(p, _) = m_ { if p < 12 { continue; } }
+                    let bad = m_.apply(&img);
+                    out.impl_checks += 1;
+                    out.count(&format!("large-wal:{}", m_.label()));
+                    match catch_unwind(AssertUnwindSafe(|| WalEntry::decode(&bad))) {
+                        Err(_) => viol(&mut out, &mut seen, i, "the implementation panicked on WalEntry::decode of a large entry", json!({"mutation": m_.term(), "image_len": img.len()})),
+                        Ok(None) => { if matches!(m_, Mut::None) { viol(&mut out, &mut seen, i, "large WAL entry does not round-trip", json!({"payload_len": e.data.len()})); } }
+                        Ok(Some((e2, used))) => {
+                            let same = used == img.len() && e2.timestamp == 42 && e2.data == e.data && e2.to_delta().map(|x| fp(&x) == fp(d0)).unwrap_or(false);
+                            if !same { viol(&mut out, &mut seen, i, "damaged large WAL entry decoded into different data", json!({"mutation": m_.term(), "payload_len": e.data.len()})); }
+                        }
+                    }
+                }
+                if target <= 200_000 {
+                    let msg = GossipMessage::new_delta_batch(ReplicaId(2), ds_.clone(), 9);
+                    out.impl_checks += 1;
+                    out.count("large-gossip:roundtrip");
+                    match msg.serialize().map_err(|e| e.to_string()).and_then(|b| GossipMessage::deserialize(&b).map(|m| (b, m)).map_err(|e| e.to_string())) {
+                        Ok((bytes, GossipMessage::DeltaBatch { source_replica, deltas: back, epoch })) => {
+                            if source_replica.0 != 2 || epoch != 9 || back.iter().map(fp).collect::<Vec<_>>() != ds_.iter().map(fp).collect::<Vec<_>>() {
+                                viol(&mut out, &mut seen, i, "large gossip message decoded into different data", json!({"bytes": bytes.len()}));
+                            }
+                            let mut cut = 4095usize;
+                            while cut < bytes.len() {
+                                for c in [cut, cut + 1, cut + 2] {
+                                    if c < bytes.len() && GossipMessage::deserialize(&bytes[..c]).is_ok() { viol(&mut out, &mut seen, i, "a truncated large gossip message is accepted", json!({"k": c})); }
+                                }
+                                out.impl_checks += 3;
+                                cut += if bytes.len() > 400_000 { 65536 } else { 16384 };
+                            }
+                        }
+                        Ok(_) => viol(&mut out, &mut seen, i, "large gossip message decoded into a different message kind", json!({})),
+                        Err(e) => viol(&mut out, &mut seen, i, "large gossip message does not round-trip", json!({"err": e})),
                     }
                 }
             }
